@@ -14,6 +14,11 @@
 // only (IsArray/IsDict/GetFields/CountField/HasField, Unpack into
 // map[string]interface{} / []interface{} / a reflect.StructOf struct, the
 // getters Has/Int/Remove) and through the "grow" hook.
+//
+// seq.go adds multi-call sequences on one existing list (idx arguments, index
+// segments of setter names / Merge keys / struct tags / flags) under the
+// conservation law "one call leaves a list of L slots with at most
+// max(L, MaxIdx+1) slots (L+1 for an append)".
 package c20
 
 import (
@@ -340,7 +345,7 @@ func (check) Cases(tier string) int { return chunkCases(tier) + len(allSettings)
 func (check) Exhaustive(string) bool { return true }
 
 func (check) Rule() string {
-	return "universe = every string of length <= 4 (thorough: <= 5) over the alphabet {- + 0 1 9 x b o _ a}, every integer literal (strconv.ParseInt base 0 accepts it) one character longer over the same alphabet, and a table of boundary spellings (m-1, m, m+1, 2m+2 for every MaxIdx m in decimal / sign / 0x / 0X / 0b / 0o / legacy-octal / leading-zero / underscore form, -0, +0, 0x, 1e3, 1.0, spaces, non-ASCII digits, -2^63, 2^16+1, 2^20 ...); a case = 8 universe strings (stride) + 2 seed-chosen longer spellings/one-edit look-alikes of small and boundary integers. Each string x position {whole key without PathSep, whole key with PathSep(\".\"), first, middle, last dotted segment; thorough also twice (s.s), deep-last, middle with PathSep(\"/\")} x usage {map key (NewFrom), setter name (SetInt), struct tag (reflect.StructOf + NewFrom), getter name Has/Int/Remove and struct tag on Unpack, both on a prepared config that holds list slot v AND the name s} x setting: integer literals meet all MaxIdx {-5,-1,0,1,7,1024,65536} x EnableNumKeys {false,true}; strings that are no integer literal (names under every setting) meet MaxIdx 65536/false plus one setting chosen by the string (thorough: all 14 up to length 4). The last 14 cases walk, for one (m, e) each, the over-limit ladder m+1, 2m+2, 2^16+1, 2^20 in ascending order and only if all of those were names 2^31, 2^40, 2^63-1, 2^63, 2^64-1 (decimal and 0x). Non-trivial = the string contains a digit (numeric or near-numeric); distinct = distinct (position, string). 'classifications' counts (segment under test, setting, position, usage) role observations."
+	return "universe = every string of length <= 4 (thorough: <= 5) over the alphabet {- + 0 1 9 x b o _ a}, every integer literal (strconv.ParseInt base 0 accepts it) one character longer over the same alphabet, and a table of boundary spellings (m-1, m, m+1, 2m+2 for every MaxIdx m in decimal / sign / 0x / 0X / 0b / 0o / legacy-octal / leading-zero / underscore form, -0, +0, 0x, 1e3, 1.0, spaces, non-ASCII digits, -2^63, 2^16+1, 2^20 ...); a case = 8 universe strings (stride) + 2 seed-chosen longer spellings/one-edit look-alikes of small and boundary integers. Each string x position {whole key without PathSep, whole key with PathSep(\".\"), first, middle, last dotted segment; thorough also twice (s.s), deep-last, middle with PathSep(\"/\")} x usage {map key (NewFrom), setter name (SetInt), struct tag (reflect.StructOf + NewFrom), getter name Has/Int/Remove and struct tag on Unpack, both on a prepared config that holds list slot v AND the name s} x setting: integer literals meet all MaxIdx {-5,-1,0,1,7,1024,65536} x EnableNumKeys {false,true}; strings that are no integer literal (names under every setting) meet MaxIdx 65536/false plus one setting chosen by the string (thorough: all 14 up to length 4). The last 14 cases walk, for one (m, e) each, the over-limit ladder m+1, 2m+2, 2^16+1, 2^20 in ascending order and only if all of those were names 2^31, 2^40, 2^63-1, 2^63, 2^64-1 (decimal and 0x). Non-trivial = the string contains a digit (numeric or near-numeric); distinct = distinct (position, string). 'classifications' counts (segment under test, setting, position, usage) role observations. Every case additionally drives 8 seed-chosen SEQUENCES of calls on one list (seq.go): setting = MaxIdx {-5,-1,0,1,2,3,4,7,16,100,1024} x EnableNumKeys x PathSep {none, '.', '/'}; the list is the config itself, a named setting, a nested setting or a list inside a list; it is brought to a start length L (0, 1..6, exactly MaxIdx+1, above MaxIdx+1) element by element, by one padded jump or from the caller's own slice; then 3..8 calls that carry an index drawn relative to (MaxIdx, L): inside the list, append (L), padded growth within MaxIdx, MaxIdx / MaxIdx+1, the band (max(MaxIdx,L), MaxIdx+L], just beyond it, huge (2^16+1 .. MaxInt64); the index arrives as idx argument of SetBool/SetInt/SetUint/SetFloat/SetString/SetChild, as idx argument of Has/Int/String/Child/Remove, or spelled (decimal, other integer syntaxes, look-alikes, negative) as last segment of a setter name, of a flat map key given to Merge, of a struct tag, of a -D style flag (flag.NewFlagKeyValue(...).Set), or as a key of its own in a nested map / nested struct given to Merge. Non-trivial distinct sequence steps = (list location, MaxIdx, L, entry point) of the steps inside the band."
 }
 
 func (check) Assumptions() []string {
@@ -353,6 +358,9 @@ func (check) Assumptions() []string {
 		"the default MaxIdx (no option) is not pinned by the statement and not exercised; MaxIdx is always passed explicitly",
 		"\"\" is used as a map key only (getter/setter name \"\" with idx -1 is outside the quantifier)",
 		"cost: building a top-level list through Merge is quadratic in its length in this library (16 s at 65536), so map-key/struct-tag usages whose FIRST segment is a legitimate index above 1024 are skipped, and a legitimate index above 300 (thorough: 1024) that is not at a boundary (m-1, m) is only exercised as a whole-key setter/getter name; the same values are exercised through SetInt and nested positions",
+		"sequences (seq.go): after ONE call that carries one index a list of L slots has at most max(L, MaxIdx+1) slots (L+1 if the call addressed slot L itself, L+k for the caller's own k-entry list during prefill); the same law is applied to every (old, new) pair at the grow hook: new <= max(old+1, MaxIdx+1). This is how 'no single key makes a list grow beyond MaxIdx+1 entries' is read for a list that exists already (element by element a list may pass MaxIdx+1, see known_findings 49b3c01)",
+		"sequences: pinned and compared - idx argument or index segment v within [0, MaxIdx]: the call succeeds, the list has max(L, v+1) slots, slot v holds the value, the names next to the list are unchanged; a segment that is a name (also a literal above MaxIdx that is below L): the list keeps its length and the name is stored byte for byte next to it with the value; idx argument above MaxIdx and beyond slot L: the call fails and the list keeps its length; getters never grow a list. NOT pinned and only bounded: whether an idx argument above MaxIdx that addresses an existing slot or slot L is accepted (recorded in monitors seq_above_max_*), Remove's effect on the length (L or L-1), the content of the other slots after Merge/flag calls (Merge pads with nil and the padding overwrites lower slots - not a C20 matter)",
+		"sequences: list merge policies (Append/Prepend/ReplaceValues) are not used - under them one index key legitimately adds its whole padded list; the default MaxIdx is not exercised (MaxIdx is always explicit); values are read back with Unpack into []interface{} / map[string]interface{} of the list holder reached with Child(name, -1) / Child(\"\", j) under default options (holder names are plain words)",
 		"safety: the grow hook aborts (panics inside harness.Safe) any list growth beyond what the oracle allows for the operation, so a wrongly accepted index never allocates",
 	}
 }
@@ -519,7 +527,11 @@ type world struct {
 	grows   int
 	maxGrow int
 	tripped bool
+	tripA   int
 	tripB   int
+	// law >= 0 (sequences on existing lists): every single growth event
+	// (old, new) must satisfy new <= max(old+1, law), law = MaxIdx+1
+	law int
 }
 
 type tripwire struct{ b int }
@@ -532,8 +544,9 @@ func (w *world) hook(kind, site, s string, a, b int) {
 	if b > w.maxGrow {
 		w.maxGrow = b
 	}
-	if b > w.allowed || b <= 0 {
+	if b > w.allowed || b <= 0 || (w.law >= 0 && b > a+1 && b > w.law) {
 		w.tripped = true
+		w.tripA = a
 		w.tripB = b
 		// abort before the library allocates: a growth beyond what the
 		// oracle allows is already the violation
@@ -542,7 +555,7 @@ func (w *world) hook(kind, site, s string, a, b int) {
 }
 
 func (w *world) arm(allowed int) {
-	w.allowed, w.grows, w.maxGrow, w.tripped, w.tripB = allowed, 0, 0, false, 0
+	w.allowed, w.grows, w.maxGrow, w.tripped, w.tripA, w.tripB = allowed, 0, 0, false, 0, 0
 }
 
 const (
@@ -1495,7 +1508,7 @@ func (check) Run(seed int64, tier string, idx int, verbose bool) harness.Result 
 	}
 	w.sigSeen = map[string]int{}
 	w.probeCache = map[[2]int64]bool{}
-	w.probeCache = map[[2]int64]bool{}
+	w.law = -1
 	w.arm(1 << 17)
 	ucfg.VerifSetHook(w.hook)
 	defer ucfg.VerifSetHook(nil)
@@ -1506,6 +1519,9 @@ func (check) Run(seed int64, tier string, idx int, verbose bool) harness.Result 
 	} else {
 		w.runLadder(allSettings[idx-nChunks])
 	}
+	// every case also drives sequences of calls on one list (seq.go)
+	w.arm(1 << 17)
+	w.runSequences(seed, idx)
 	return res.Done()
 }
 
